@@ -241,7 +241,7 @@ fn dump(st: &St) -> String {
         };
         let ch = child_list(n);
         let mut s = format!(
-            "{}={},{},{},p={},c={},f={},l={},pv={},nx={},k={}",
+            "{}={}/{}/{}/p={}/c={}/f={}/l={}/pv={}/nx={}/k={}",
             i,
             kind(n),
             enc(&n.node_name()),
@@ -257,10 +257,10 @@ fn dump(st: &St) -> String {
         match n {
             XmlNode::Element(_) => {
                 let (ns, at, _) = parts(n);
-                s.push_str(&format!(",a={},n={}", hlist(st, *d, &at), hlist(st, *d, &ns)));
+                s.push_str(&format!("/a={}/n={}", hlist(st, *d, &at), hlist(st, *d, &ns)));
             }
             XmlNode::Attribute(a) => {
-                s.push_str(&format!(",sp={}", if a.specified() { 1 } else { 0 }));
+                s.push_str(&format!("/sp={}", if a.specified() { 1 } else { 0 }));
             }
             _ => {}
         }
@@ -284,7 +284,7 @@ fn dump(st: &St) -> String {
                 })
                 .collect();
             raw[i].push_str(&format!(
-                ",m={}",
+                "/m={}",
                 if items.is_empty() { "-".to_string() } else { items.join(";") }
             ));
         }
@@ -354,8 +354,22 @@ fn describe(st: &St) -> String {
         let mut attrs: Vec<XmlNode> = ns.into_iter().chain(at).collect();
         attrs.sort_by_key(|a| a.id());
         // the info-level parent: the handle that lists this node
+        let ents = match n {
+            XmlNode::DocumentType(t) => {
+                let l: Vec<String> = dom::DocumentType::entities(t)
+                    .iter()
+                    .map(|e| enc(&e.node_name()))
+                    .collect();
+                if l.is_empty() {
+                    "~".to_string()
+                } else {
+                    l.join(".")
+                }
+            }
+            _ => "~".to_string(),
+        };
         out.push(format!(
-            "I{}:{}:{}:{}:{}:{}:{}:{}:{}",
+            "I{}:{}:{}:{}:{}:{}:{}:{}:{}:{}",
             h,
             d,
             kind(n),
@@ -364,8 +378,104 @@ fn describe(st: &St) -> String {
             data,
             flag,
             hlist(st, *d, &ch),
-            hlist(st, *d, &attrs)
+            hlist(st, *d, &attrs),
+            ents
         ));
+    }
+    out.join(" ")
+}
+
+/// facts the implementation derives from a string argument (the model takes them as given):
+/// `e<element name>/a<attribute name>/p<pi target>/r<reference?>/t<text ok>/c<comment ok>/d<cdata ok>/P<pi content>/A<attribute value items>`
+fn digest(s: &str) -> String {
+    fn qn(q: &xml_nom::model::QName) -> String {
+        match q {
+            xml_nom::model::QName::Prefixed(p) => format!("{}_{}", enc(p.prefix), enc(p.local_part)),
+            xml_nom::model::QName::Unprefixed(l) => format!("~_{}", enc(l)),
+        }
+    }
+    let e = match xml_parser::element(&format!("<{} />", s)) {
+        Ok(("", t)) => qn(&t.name),
+        _ => "~".to_string(),
+    };
+    let a = match xml_parser::attribute(&format!("{}=''", s)) {
+        Ok(("", t)) => match &t.name {
+            xml_parser::model::AttributeName::DefaultNamespace => format!("~_{}", enc("xmlns")),
+            xml_parser::model::AttributeName::Namespace(v) => format!("{}_{}", enc("xmlns"), enc(v)),
+            xml_parser::model::AttributeName::QName(q) => qn(q),
+        },
+        _ => "~".to_string(),
+    };
+    let p = match xml_parser::pi(&format!("<?{}?>", s)) {
+        Ok(("", t)) => enc(t.target),
+        _ => "~".to_string(),
+    };
+    let r = if xml_parser::reference(&format!("&{};", s)).is_ok() { 1 } else { 0 };
+    let t = match xml_parser::content(s) {
+        Ok((rest, c)) => rest.is_empty() && c.children.is_empty(),
+        Err(_) => false,
+    };
+    let c = matches!(xml_parser::comment(&format!("<!--{}-->", s)), Ok(("", _)));
+    let d = matches!(xml_parser::cdsect(&format!("<![CDATA[{}]]>", s)), Ok(("", _)));
+    let pc = match xml_parser::pi(&format!("<?t {}?>", s)) {
+        Ok(("", t)) => match t.value {
+            Some(v) => format!("s{}", enc(v)),
+            None => "n".to_string(),
+        },
+        _ => "~".to_string(),
+    };
+    let quoted = if s.contains('"') { format!("'{}'", s) } else { format!("\"{}\"", s) };
+    let av = match xml_parser::attribute(&format!("a={}", quoted)) {
+        Ok(("", t)) => {
+            let items: Vec<String> = t
+                .value
+                .iter()
+                .map(|v| match v {
+                    xml_parser::model::AttributeValue::Text(x) => format!("t{}", enc(x)),
+                    xml_parser::model::AttributeValue::Reference(
+                        xml_parser::model::Reference::Character(n, radix),
+                    ) => {
+                        let ch = u32::from_str_radix(n, *radix).ok().and_then(char::from_u32);
+                        format!(
+                            "c{}_{}",
+                            enc(&format!("#{}{}", if *radix == 16 { "x" } else { "" }, n)),
+                            ch.map(|c| enc(&c.to_string())).unwrap_or("~".to_string())
+                        )
+                    }
+                    xml_parser::model::AttributeValue::Reference(
+                        xml_parser::model::Reference::Entity(n),
+                    ) => format!("e{}", enc(n)),
+                })
+                .collect();
+            if items.is_empty() {
+                ".".to_string()
+            } else {
+                items.join("^")
+            }
+        }
+        _ => "~".to_string(),
+    };
+    format!(
+        "e{}/a{}/p{}/r{}/t{}/c{}/d{}/P{}/A{}",
+        e, a, p, r, t as u8, c as u8, d as u8, pc, av
+    )
+}
+
+fn op_digests(ops: &[&str]) -> String {
+    let mut out = vec![];
+    for (i, op) in ops.iter().enumerate() {
+        let f: Vec<&str> = op.split(':').collect();
+        if matches!(
+            f[0],
+            "SA" | "CE" | "CA" | "CT" | "CC" | "CD" | "CP" | "CR" | "SV" | "SD" | "AD" | "ID" | "RD" | "PD"
+        ) {
+            let ds: Vec<String> = f
+                .iter()
+                .skip(2)
+                .map(|x| dec(x).map(|s| digest(&s)).unwrap_or("~".to_string()))
+                .collect();
+            out.push(format!("O{}:{}", i, ds.join("+")));
+        }
     }
     out.join(" ")
 }
@@ -633,7 +743,12 @@ pub fn case(line: &str) -> String {
         st.docs.push(Doc { info: Some(idoc), dom: Some(ddoc.clone()) });
         st.walk(k, ddoc.as_node());
     }
-    let mut recs = vec![format!("init {} # {}", describe(&st), dump(&st))];
+    let mut recs = vec![format!(
+        "init {} {} # {}",
+        describe(&st),
+        op_digests(&w[2 + nd..]),
+        dump(&st)
+    )];
     for op in &w[2 + nd..] {
         st.set_view(merged);
         let r = catch_unwind(AssertUnwindSafe(|| run_op(&mut st, op)));
